@@ -137,6 +137,12 @@ def _setup(c):
         shutil.copy(os.path.join(root, fn), os.path.join(root, "dir2", fn))
     for fn in ("g1.json", "g2.json"):
         shutil.copy(os.path.join(root, "dir2", fn), os.path.join(root, fn))
+    # the process works in another directory that holds DECOYS under the same relative names: an include field with a
+    # start directory must never read them (only a field without start directory resolves against the cwd)
+    os.mkdir(os.path.join(root, "cwd"))
+    for fn in ("f1.json", "f2.json", "g1.json", "g2.json"):
+        with open(os.path.join(root, "cwd", fn), "w") as fp:
+            fp.write(json.dumps({"decoy": fn, "a": "decoy-" + fn}))
     return root
 
 
@@ -217,7 +223,7 @@ def impl(c):
         doc = _absolutise(c["doc"], root)
         before = asdict(cfg)
         cwd = os.getcwd()
-        os.chdir(root)
+        os.chdir(os.path.join(root, "cwd"))
         try:
             c["_table"] = _table(c, root)
             cfg.loads(json.dumps(doc).encode(), format="json")
